@@ -287,6 +287,7 @@ R6_TABLE = [
     (r'\.map_or\(0, Bytes::len\)', '.vx_map_or_0_len()'),
     (r'\(\*cb\)\(', 'cb.vx_call('),
     (r'\|_\|', '|_vx0|'),
+    (r'\bu8::from\(((?:self|will|pkt|publish)\.(?:no_local|retain_as_published|dup|retain|session_present))\)', r'vx_u8_from_bool(\1)'),
     (r'Box<dyn Fn\(([^()]*)\)>', r'VxBoxFn<(\1)>'),
     (r'\.map_or\(0, \|v\| 1 \+ v\.encoded_size\(\)\)', '.vx_map_or_0_1_plus_encoded_size()'),
 ]
